@@ -791,6 +791,132 @@ theorem skipI_nil (inst : Option Inst) (skip : List String) (h : skip.isEmpty = 
     skipI inst skip s = .ok s := by
   unfold skipI; rw [if_pos h]
 
+theorem topoB_sound (src : Masters) : ∀ (order seen : List String), topoB src seen order = true →
+    TopoFrom (Refp src) seen order := by
+  intro order
+  induction order with
+  | nil => intro seen _; trivial
+  | cons n ns ih =>
+    intro seen h
+    simp only [topoB, Bool.and_eq_true, Bool.not_eq_true'] at h
+    refine ⟨?_, ih (n :: seen) h.2⟩
+    intro x hx
+    have hnot : x ∉ n :: seen := by
+      intro hmem
+      have := reaches_of_refp src (n :: seen) n x hx hmem
+      rw [h.1] at this; cases this
+    exact ⟨fun hm => hnot (List.mem_cons_of_mem _ hm), fun e => hnot (e ▸ List.mem_cons_self)⟩
+
+theorem runIU_live (I : Inst) (P : Masters) (hP : SrcOK P) (hwf : wfSrc P = true) (incl : Glyph → Bool)
+    (ords : List (List String)) (s' : St)
+    (htopo : ∀ order, orderI P (runNames ⟨P, none, [], ords⟩) = .ok order → topoB P [] order = true)
+    (h : runIU incl (decomposeIStep (some I)) ⟨P, none, [], ords⟩ = .ok s') : AlikeB (abG absS) s'.ms := by
+  unfold runIU at h
+  cases hr : runI incl (decomposeIStep (some I)) ⟨P, none, [], ords⟩ with
+  | error e => rw [hr] at h; cases h
+  | ok res =>
+    obtain ⟨s1, md⟩ := res
+    rw [hr] at h
+    simp only [Except.ok.injEq] at h
+    rw [← h, updated_ms]
+    exact runI_live I P hP (Refp P) (refp_trans P) (src_refOk P hwf) incl ords s1 md
+      (fun order ho => topoB_sound P order [] (htopo order ho)) hr
+
+/-- **C09_pipeline_inst_partial** (designspace builds: WITH an Instantiator).  Let the sources — full or sparse — be alike
+    (same point types, component names and determinant signs for same-named glyphs) and `signStable` (for every glyph
+    and every two sources that have it, each component's 2×2 determinant has the same NON-ZERO sign in both AND on the
+    whole segment between the two matrices; exactly: `mixDet ≥ 0` on the sign's side, or `mixDet² < 4·det·det`).  Then the
+    pre-processors — CFF: unconditional joint decomposition; TrueType: `check_for_nonmatching_components` + joint decomposition,
+    then cu2qu (contract `cu2quAlike`: alike in ⇒ alike out) or per-master reversal — leave a family that is alike, hence
+    point-compatible: composites that `ensureCompositeDefinedAtComponentLocations` interpolates into sparse masters, and
+    the base glyphs a sparse master's `InterpolatedLayer` interpolates on the fly, look like the sources' because a
+    sign-stable interpolation keeps the sign of every component determinant (`lerpGlyph_alike`).
+    PARTIAL — (a) covered configurations (`instPlain`): no skipExportGlyphs, no custom filters, and for TrueType no
+    flattenComponents, so that there is ONE decomposing run and it starts from the sources; (b) hypothesis `orderTopo`
+    (decidable, reported per family): the depth-sorted iteration order of that run visits no glyph after one of its
+    (transitive) bases — ufo2ft computes the depth in the first glyph set that has the glyph, which does not guarantee
+    it; then every base a step looks up is still original, in the live glyph sets and in the cached Variators.
+    Missing for the rest: once a base has been modified before its user is visited, a master that has the base sees the
+    modified glyph while a sparse master interpolates a stale (cached) or a fresh Variator — the views no longer agree
+    glyph by glyph (agreement of the final outlines would need confluence of nested decomposition); and matrices composed
+    by an earlier filter need not be sign-stable even if the sources' are (`signStable` is not closed under composition).
+    `C09_signStable_witness` shows the hypothesis cannot be weakened to "equal non-zero signs". -/
+theorem C09_pipeline_inst_partial (cfg : Cfg) (src : Masters) (o : PreOut) (I : Inst) (hI : cfg.inst = some I)
+    (hplain : instPlain cfg = true) (hwf : wfSrc src = true) (hal : alike src = true) (hst : signStable src = true)
+    (htopo : orderTopo cfg src = true) (hcu : cu2quAlike cfg o.beforeCu2qu = true)
+    (h : (if cfg.ttf then preprocessTTF cfg src else preprocessOTF cfg src) = .ok o) :
+    AlikeB (abG absS) o.final ∧ compatible o.final = true := by
+  have hP := srcOK_of src hwf hal hst
+  simp only [instPlain, Bool.and_eq_true, Bool.or_eq_true, Bool.not_eq_true'] at hplain
+  obtain ⟨⟨hskip, hcustom⟩, hflat⟩ := hplain
+  let s0 : St := ⟨src, none, [], cfg.orders⟩
+  have htopo' : ∀ order, orderI src (runNames ⟨src, none, [], cfg.orders⟩) = .ok order → topoB src [] order = true := by
+    intro order ho
+    unfold orderTopo at htopo
+    rw [ho] at htopo
+    exact htopo
+  have key : ∃ s : St, AlikeB (abG absS) s.ms ∧ s.ms = o.final := by
+    split at h
+    · rename_i httf
+      have hnofl : cfg.flatten = false := by
+        rcases hflat with h1 | h1
+        · rw [httf] at h1; cases h1
+        · exact h1
+      apply preprocessTTF_chain (fun s => s = s0) (fun s => s = s0) (fun s => s = s0)
+        (fun s => AlikeB (abG absS) s.ms) (fun s => AlikeB (abG absS) s.ms) (fun s => AlikeB (abG absS) s.ms)
+        (fun s => AlikeB (abG absS) s.ms) cfg src o rfl
+      · intro s s' hs hh; rw [hs, skipI_nil _ _ hskip] at hh; exact (Except.ok.inj hh).symm
+      · intro s s' hs hh; rw [hs, runCustom_none cfg hcustom] at hh; exact (Except.ok.inj hh).symm
+      · intro s s' hs hh
+        rw [hs, hI] at hh
+        unfold decomposeNeeded at hh
+        dsimp only at hh
+        split at hh
+        · simp only [Except.ok.injEq] at hh; rw [← hh]; exact hP.alike
+        · exact runIU_live I src hP hwf _ cfg.orders s' htopo' hh
+      · intro s s' b hs hh hb
+        have hbefore := curvesStep_before cfg s s' b hh
+        unfold curvesStep at hh
+        split at hh
+        · rename_i hcc
+          cases hq : cfg.cu2qu with
+          | none => rw [hq] at hh; cases hh
+          | some q =>
+            rw [hq] at hh
+            simp only [Except.ok.injEq, Prod.mk.injEq] at hh
+            rw [← hh.2, updated_ms]
+            rw [hb, hbefore hcc] at hcu
+            simp only [cu2quAlike, hq, Bool.or_eq_true, Bool.not_eq_true'] at hcu
+            rcases hcu with hc | hc
+            · have := (alike_iff s.ms).mpr hs
+              rw [hc] at this; cases this
+            · exact (alike_iff q).mp hc
+        · split at hh
+          · simp only [Except.ok.injEq, Prod.mk.injEq] at hh
+            rw [← hh.2, updated_ms]
+            apply reverseAll_alike (abG absS) _ s.ms hs
+            intro g1 g2 hg
+            simp only [abG, Prod.mk.injEq] at hg ⊢
+            exact ⟨absS.Γ_rev _ _ hg.1, hg.2⟩
+          · simp only [Except.ok.injEq, Prod.mk.injEq] at hh
+            rw [← hh.2]; exact hs
+      · intro hfl; rw [hnofl] at hfl; cases hfl
+      · intro s hs; exact hs
+      · intro s s' hs hh; rw [runCustom_none cfg hcustom] at hh; rw [← Except.ok.inj hh]; exact hs
+      · exact h
+    · apply preprocessOTF_chain (fun s => s = s0) (fun s => s = s0) (fun s => s = s0)
+        (fun s => AlikeB (abG absS) s.ms) (fun s => AlikeB (abG absS) s.ms) cfg src o rfl
+      · intro s s' hs hh; rw [hs, skipI_nil _ _ hskip] at hh; exact (Except.ok.inj hh).symm
+      · intro s s' hs hh; rw [hs, runCustom_none cfg hcustom] at hh; exact (Except.ok.inj hh).symm
+      · intro s s' hs hh
+        rw [hs, hI] at hh
+        exact runIU_live I src hP hwf _ cfg.orders s' htopo' hh
+      · intro s s' hs hh; rw [runCustom_none cfg hcustom] at hh; rw [← Except.ok.inj hh]; exact hs
+      · exact h
+  obtain ⟨s, hs, hsm⟩ := key
+  rw [hsm] at hs
+  exact ⟨hs, compatible_of_alikeS o.final hs⟩
+
 /-! ### the witness: equal non-zero determinant signs are not enough -/
 
 def wA (k : Q) : Glyph :=
@@ -865,6 +991,25 @@ example : (match compileFamily xCfg xSrc with
     have h2 := C09_sparse xCfg xSrc o (by decide +kernel) (by decide +kernel) (by decide +kernel) (by decide +kernel)
       (by decide +kernel) (xCfg_cu2quOk _) h
     simp only [h1, h2, beq_self_eq_true, Bool.and_self]
+
+theorem xOrder : orderI xSrc (runNames ⟨xSrc, none, [], xCfg.orders⟩) = .ok ["B", ".notdef", "A"] := by
+  simp [runNames, xCfg, orderI, depthsI, compDepth, maxComponentDepth, depthGlyph, depthComps, allNames, dedupFirst, dedupAux,
+    GlyphSet.names, xSrc, xS0, xS1, xS2, xA, xB, xN, GlyphSet.get?, alookup, List.mergeSort]
+
+theorem xTopo : orderTopo xCfg xSrc = true := by
+  unfold orderTopo
+  rw [xOrder]
+  decide +kernel
+
+/-- `C09_pipeline_inst_partial` applies to the same family (alike, sign-stable, plain configuration) -/
+example : ∃ o, preprocessTTF xCfg xSrc = .ok o ∧ AlikeB (abG absS) o.final ∧ compatible o.final = true := by
+  cases h : preprocessTTF xCfg xSrc with
+  | error e =>
+    have hok : isOk (preprocessTTF xCfg xSrc) = true := by decide +kernel
+    rw [h] at hok; cases hok
+  | ok o =>
+    exact ⟨o, rfl, C09_pipeline_inst_partial xCfg xSrc o ⟨[0, 1, 1/2], 0⟩ rfl (by decide +kernel) (by decide +kernel)
+      (by decide +kernel) (by decide +kernel) xTopo (xCfg_cu2quAlike _) (by simpa [xCfg] using h)⟩
 
 /-- a real interpolation to which `lerpGlyph_alike` applies: half-way between the identity and a scaling by 1/2 -/
 example : abG absS (xB ⟨1, 0, 0, 1, 0, 0⟩) = abG absS (xB ⟨1/2, 0, 0, 1/2, 10, 0⟩) ∧
